@@ -136,9 +136,59 @@ def generate(seed, tier):
         ops.append("k")
         yield "norm map %s %s" % (what, " ".join(ops))
 
+    # ---- tables and packets THROUGH THE STORE: built under non-NFC / reordered / case-variant spellings, stored in a managed CIF
+    # (set_value / loop packet), read back (get_value / packet iterator), and only then probed under every equivalent and
+    # inequivalent spelling; then replaced and removed through equivalent spellings
+    for _ in range(700 if tier == "quick" else 12000):
+        yield store_seq(r, namepool)
     # ---- buffer level -------------------------------------------------------------------------------------------------
     for req in gen_buf(r, tier, pool):
         yield req
+
+
+def store_seq(r, namepool):
+    what = r.choice(["tbl", "tbl", "pkt"])
+    special = [c for c in SPECIAL if _valid.cif_char_ok(c, False)]
+    nbase = r.randrange(1, 4)
+    base = [rand_word(r, namepool if r.random() < 0.5 else special, r.randrange(1, 4)) for _ in range(nbase)]
+    fam = [variants(r, w) for w in base]                       # per base word: equivalent and inequivalent spellings
+    pre = "_" if what == "pkt" else ""
+    hk = lambda k: hexs(to_units(pre + k))
+    ops, tag = [], [0x30]
+
+    def nxt():
+        tag[0] += 1
+        return "%04x" % tag[0]
+    for vs in fam:                                             # build: one or two sets per base word, under unusual spellings
+        for _ in range(r.randrange(1, 3)):
+            ops.append("s:%s:%s" % (hk(r.choice(vs[:3] + vs[3:9])), nxt()))
+    if what == "tbl":
+        for k in r.sample(["", " ", "a b", "\t", "A", "a"], r.randrange(0, 3)):
+            ops.append("s:%s:%s" % (hk(k), nxt()))
+    store = (lambda: r.choice(["S", "P"])) if what == "tbl" else (lambda: "P")
+    if r.random() < 0.15:
+        ops.append("k")
+    ops.append(store())
+    ops.append("k")
+    for vs in fam:                                             # probe under every spelling
+        for k in vs:
+            ops.append("g:%s" % hk(k))
+    vs = r.choice(fam)                                         # replace through an equivalent spelling: count unchanged, new spelling
+    ops.append("s:%s:%s" % (hk(r.choice(vs[:9])), nxt()))
+    ops.append("k")
+    ops.append("g:%s" % hk(r.choice(vs[:3])))
+    if r.random() < 0.5:
+        ops.append(store())
+        ops.append("k")
+        ops.append("g:%s" % hk(r.choice(vs)))
+    vs = r.choice(fam)                                         # remove through an equivalent spelling
+    ops.append("r:%s" % hk(r.choice(vs[:9])))
+    ops.append("k")
+    ops.append("g:%s" % hk(r.choice(vs[:3])))
+    if r.random() < 0.3:
+        ops.append(store())
+        ops.append("k")
+    return "norm map %s %s" % (what, " ".join(ops))
 
 
 _expanding = None
@@ -340,8 +390,31 @@ def oracle(req, impl):
             return "answer has %d results for %d operations" % (len(res), len(ops))
         for op, got in zip(ops, res):
             p = op.split(":")
-            if p[0] == "k":
-                want = "k=[%s]" % ",".join(sorted(sp for sp, _ in table.values()))
+            if p[0] in ("S", "P"):
+                # through a managed CIF and back: the read-back object must be indistinguishable as far as the property speaks -
+                # a TABLE keeps keys, spellings and values; a PACKET from an iterator keeps the items (matched by normalised name),
+                # the spelling under which its names enumerate is not fixed by any property: the entered one or the normal form
+                if not is_tbl and not table:
+                    want = "P=skip"
+                else:
+                    want = p[0] + "=0/0"
+                    if not is_tbl:
+                        table = {nf: ((sp if isinstance(sp, tuple) else (sp,)) + (nf,), tg) for nf, (sp, tg) in table.items()}
+            elif p[0] == "k":
+                if any(isinstance(sp, tuple) for sp, _ in table.values()):
+                    names = got[3:-1].split(",") if got.startswith("k=[") and got.endswith("]") and len(got) > 4 else []
+                    left = dict(table)
+                    ok_ = got.startswith("k=[") and names == sorted(names)
+                    for nm_ in names:
+                        hit = [nf for nf, (sp, _) in left.items() if nm_ in (sp if isinstance(sp, tuple) else (sp,))]
+                        if len(hit) != 1:
+                            ok_ = False
+                            break
+                        del left[hit[0]]
+                    want = got if ok_ and not left else "k=[one spelling (entered or normalised) per item: %s]" % ",".join(
+                        "|".join(sp) if isinstance(sp, tuple) else sp for sp, _ in table.values())
+                else:
+                    want = "k=[%s]" % ",".join(sorted(sp for sp, _ in table.values()))
             else:
                 u = unhexs(p[1])
                 ok = _valid.spec_key(u) if is_tbl else _valid.spec_name(u, True)
